@@ -152,8 +152,17 @@ def load_known():
     return out
 
 
+_ADDR = None
+
+
 def jsonable(o):
-    if isinstance(o, (str, int, float, bool)) or o is None:
+    global _ADDR
+    if isinstance(o, str):
+        if _ADDR is None:
+            import re
+            _ADDR = re.compile(r' at 0x[0-9a-f]+')
+        return _ADDR.sub(' at 0x', o) if ' at 0x' in o else o
+    if isinstance(o, (int, float, bool)) or o is None:
         return o
     if isinstance(o, bytes):
         return o.decode('latin-1')
@@ -161,7 +170,7 @@ def jsonable(o):
         return {str(k): jsonable(v) for k, v in o.items()}
     if isinstance(o, (list, tuple, set, frozenset)):
         return [jsonable(x) for x in o]
-    return repr(o)
+    return jsonable(repr(o))
 
 
 def run_check(prop, tier):
